@@ -134,7 +134,14 @@ class Multi(Histories):
                     [{'op': 'value', 'chain': ch, 'pick': 2} for ch in (1, 2, 3)] + \
                     [{'op': 'force_multi', 'multi': 0, 'picks': [0], 'recompute': False, 'delete': False}] + \
                     [{'op': 'flags', 'chain': ch} for ch in (1, 2, 3)] + [{'op': 'value', 'chain': ch, 'pick': 2} for ch in (3, 2, 1)]
-        return [c, d, g, n, sh, nc, lf]
+        # member configs that differ only in a parameter of an in-memory task in the middle: the tasks downstream of it differ
+        mm = [dict(K(0, 'Source'), name='source'), dict(K(1, 'Scale', meta_inputs=[{'cls': 0}], params=[P('factor')], data='memory'), name='scale'),
+              dict(K(2, 'Report', meta_inputs=[{'cls': 1}]), name='report')]
+        mb = [{'name': f'c{f}', 'data': {'tasks': ['@M.*'], 'factor': f}} for f in (2, 3)]
+        mt = dict(classes=mm, files={}, base=mb[0], context=None)
+        mt['ops'] = [{'op': 'multi', 'bases': mb}] + [{'op': 'value', 'chain': ch, 'pick': 2} for ch in (0, 1, 0, 1)] + \
+                    [{'op': 'restart'}, {'op': 'multi', 'bases': mb[::-1]}] + [{'op': 'value', 'chain': ch, 'pick': 2} for ch in (1, 0)]
+        return [c, d, g, n, sh, nc, lf, mt]
 
     def oracle(self, case, obs):
         m = multi_oracle(case, obs)
@@ -329,6 +336,98 @@ class ForceForms(Suite):
         return repr(case)
 
 
+PATTERN_SRC = """
+from taskchain import Task, Parameter
+
+RUNS = []
+
+class InA(Task):
+    def run(self) -> dict:
+        RUNS.append('in_a')
+        return {'v': 'a'}
+
+class InB(Task):
+    def run(self) -> dict:
+        RUNS.append('in_b')
+        return {'v': 'b'}
+
+class Collect(Task):            # collects by a pattern; its value does not depend on the order of the collected tasks
+    class Meta:
+        input_tasks = ['~in_.*']
+    def run(self) -> dict:
+        RUNS.append('collect')
+        return {'all': sorted(t.value['v'] for t in self.input_tasks.values())}
+
+class Top(Task):
+    class Meta:
+        input_tasks = [Collect]
+        parameters = [Parameter('k')]
+    def run(self, collect, k) -> dict:
+        RUNS.append('top%s' % k)
+        return {'k': k, 'from': collect}
+"""
+
+
+class PatternMembers(Suite):
+    """member configs that list the tasks a pattern input collects in different orders: the collecting task is the same
+    computation in all of them - one location (that of every standalone chain), one shared object, computed once - and the
+    tasks downstream of it that differ in a parameter are distinct.  Runtime check only."""
+    name = 'pattern_inputs_across_members'
+    model = ''
+
+    def gen(self, rng, tier):
+        import itertools
+        orders = [list(p) for p in itertools.permutations(['InA', 'InB', 'Collect', 'Top'])]
+        return [dict(orders=[orders[0], o]) for o in orders[1:8]] + [dict(orders=[orders[3], orders[9], orders[20]])]
+
+    def run_impl(self, case):
+        import sys, types
+        from taskchain import Config, MultiChain
+        from .. import pipeline as pl
+        with pl.workspace(dict(classes=[], files={})) as (d, _):
+            name = 'tcv_patterns'
+            m = types.ModuleType(name)
+            sys.modules[name] = m
+            try:
+                exec(compile(PATTERN_SRC, name, 'exec'), m.__dict__)
+                cfgs = lambda: [Config(Path('data'), name=f'c{i}', data={'tasks': [f'{name}.{c}' for c in o], 'k': i})
+                                for i, o in enumerate(case['orders'])]
+                alone = [{n: str(t.data_path) for n, t in c.chain().tasks.items()} for c in cfgs()]
+                mc = MultiChain(cfgs())
+                chains = [ch for _, ch in sorted(mc.chains.items())]
+                member = [{n: str(t.data_path) for n, t in ch.tasks.items()} for ch in chains]
+                ids = [{n: id(t) for n, t in ch.tasks.items()} for ch in chains]
+                values = [ch['top'].value for ch in chains]
+                return dict(alone=alone, member=member, same_collect=len({i['collect'] for i in ids}), tops=len({i['top'] for i in ids}),
+                            values=values, runs=sorted(m.RUNS))
+            finally:
+                sys.modules.pop(name, None)
+
+    def oracle(self, case, obs):
+        if 'unexpected_exception' in obs:
+            return f'unexpected exception {obs["unexpected_exception"]}: {obs["text"]}'
+        n = len(case['orders'])
+        if obs['alone'] != obs['member']:
+            return f'{case}: locations in the MultiChain {obs["member"]} differ from those of the standalone chains {obs["alone"]}'
+        if len({a['collect'] for a in obs['alone']}) != 1:
+            return f'{case}: the collecting task has the locations {[a["collect"] for a in obs["alone"]]} in configs that list its inputs in different orders'
+        if obs['same_collect'] != 1 or obs['tops'] != n:
+            return f'{case}: {obs["same_collect"]} collecting objects (one computation) and {obs["tops"]} top objects ({n} computations)'
+        want = sorted(['in_a', 'in_b', 'collect'] + [f'top{i}' for i in range(n)])
+        if obs['runs'] != want:
+            return f'{case}: runs {obs["runs"]}, expected {want}'
+        for i, v in enumerate(obs['values']):
+            if v != {'k': i, 'from': {'all': ['a', 'b']}}:
+                return f'{case}: chain {i} yields {v}'
+        return None
+
+    def nontrivial(self, case, obs):
+        return True
+
+    def key(self, case):
+        return repr(case)
+
+
 class NameModeMembers(Suite):
     """MultiChain(configs, parameter_mode=False): every member has the tasks, values and (config-name based) storage
     locations of the standalone chain built with parameter_mode=False from the same config - for separate config files
@@ -399,7 +498,7 @@ class NameModeMembers(Suite):
 
 class C13(Prop):
     pid = 'C13'
-    suites = [Multi(), ObjectUses(), DataDirs(), ForceForms(), NameModeMembers()]
+    suites = [Multi(), ObjectUses(), DataDirs(), ForceForms(), NameModeMembers(), PatternMembers()]
     assumptions = ['config names within one MultiChain are distinct (the constructor asserts it)']
 
 
